@@ -11,6 +11,10 @@ from sidemantic.core.symmetric_aggregate import build_symmetric_aggregate_sql
 from sidemantic.sql.aggregation_detection import sql_has_aggregate
 
 
+# Reserved words that cannot be parsed as an unquoted alias or column name
+_UNQUOTABLE_WORDS = frozenset({"ANY", "CASE", "MAP", "NOT", "SELECT"})
+
+
 class SQLGenerator:
     """Generates SQL queries from semantic layer definitions using SQLGlot builder API."""
 
@@ -93,7 +97,10 @@ class SQLGenerator:
         """Return True when identifier can be emitted without quotes."""
         import re
 
-        return re.match(r"^[A-Za-z_][A-Za-z0-9_]*$", name) is not None
+        if re.match(r"^[A-Za-z_][A-Za-z0-9_]*$", name) is None:
+            return False
+        # Words the SQL parser does not accept as a bare alias / column name must be quoted too
+        return name.upper() not in _UNQUOTABLE_WORDS
 
     def _quote_identifier(self, name: str) -> str:
         """Quote a SQL identifier for the current dialect."""
